@@ -10,6 +10,7 @@
 (*   Req(c, sid, fs, out, g) handler: REQ -> storage.subscribe (atomic:     *)
 (*                           none of its awaits suspends)                   *)
 (*   Notice(c)               handler writes the NOTICE of a refused REQ     *)
+(*   Limited(c) / RefuseOk   the rate limiter refused the message           *)
 (*   Close(c, sid)           handler: CLOSE -> storage.unsubscribe          *)
 (*   Submit(c, e)            handler: EVENT -> enters storage.add_event     *)
 (*   FanOut(c, e)            add_event accepted e (committed / queued) and  *)
@@ -126,6 +127,18 @@ Notice(c) ==
     /\ sent' = [sent EXCEPT ![c] = Append(@, [t |-> "NOTICE"])]
     /\ UNCHANGED <<open, reg, outbox, qtask, eosed, pn, nf, accepted, busy>>
 
+(* the rate limiter refused the message (web.start_client calls is_limited before anything else): the message is not
+   processed at all; the client is owed NOTICE "rate-limited", or OK false if it was an EVENT *)
+Limited(c) ==
+    /\ Idle(c)
+    /\ owes' = [owes EXCEPT ![c] = 1]
+    /\ UNCHANGED <<open, reg, outbox, qtask, eosed, pn, nf, accepted, sent, busy>>
+RefuseOk(c) ==
+    /\ c \in open /\ owes[c] > 0 /\ busy[c] = <<>>
+    /\ owes' = [owes EXCEPT ![c] = @ - 1]
+    /\ sent' = [sent EXCEPT ![c] = Append(@, [t |-> "OK", e |-> "?", ok |-> FALSE])]
+    /\ UNCHANGED <<open, reg, outbox, qtask, eosed, pn, nf, accepted, busy>>
+
 Close(c, sid) ==
     /\ Idle(c)
     /\ IF sid \in Subs(c)
@@ -231,7 +244,7 @@ Disconnect(c) ==
     /\ UNCHANGED <<outbox, qtask, eosed, pn, nf, accepted, sent, busy>>
 
 Next ==
-    \/ \E c \in Conns : Connect(c) \/ Disconnect(c) \/ Send(c) \/ Notice(c) \/ Commit(c)
+    \/ \E c \in Conns : Connect(c) \/ Disconnect(c) \/ Send(c) \/ Notice(c) \/ Commit(c) \/ Limited(c) \/ RefuseOk(c)
     \/ \E c \in Conns, sid \in SubIds, fs \in FilterSets, out \in {"eose", "toomany"} : Req(c, sid, fs, out, 0)
     \/ \E c \in Conns, sid \in SubIds, fs \in FilterSets, g \in Gens :
           /\ g \notin DOMAIN qtask /\ \A h \in Gens : h < g => h \in DOMAIN qtask     \* generations are used in order
@@ -319,8 +332,9 @@ A_C05_PushOnlyByNotify ==
 \* C06: exactly one OK per EVENT, TRUE iff the event was accepted and handed to the fan-out
 A_C06_OkMatchesOutcome ==
     \A c \in Conns : (Len(sent'[c]) = Len(sent[c]) + 1 /\ sent'[c][Len(sent'[c])].t = "OK") =>
-        /\ busy[c] # <<>> /\ busy'[c] = <<>>
-        /\ busy[c][2] = "ret" /\ busy[c][3] = sent'[c][Len(sent'[c])].ok
+        \/ /\ busy[c] # <<>> /\ busy'[c] = <<>>
+           /\ busy[c][2] = "ret" /\ busy[c][3] = sent'[c][Len(sent'[c])].ok
+        \/ /\ busy[c] = <<>> /\ owes[c] > 0 /\ ~sent'[c][Len(sent'[c])].ok        \* the refusal of a rate-limited EVENT
 
 C13_StoredBeforeEose    == [][A_C13_StoredBeforeEose]_vars
 C13_NoStoredAfterCancel == [][A_C13_NoStoredAfterCancel]_vars
